@@ -134,7 +134,10 @@ pub mod order {
                 matches!(
                     (&a.kind, &b.kind),
                     (ast::ItemKind::Mod(..), ast::ItemKind::Mod(..))
-                        | (ast::ItemKind::ExternCrate(..), ast::ItemKind::ExternCrate(..))
+                        | (
+                            ast::ItemKind::ExternCrate(..),
+                            ast::ItemKind::ExternCrate(..)
+                        )
                 )
             };
             krate
@@ -177,7 +180,9 @@ pub type ReportEntry = (String, usize, u8, usize, usize, bool, bool);
 /// Read-only view of a `FormatReport`: its entries (sorted by file, then in push
 /// order), the exit-relevant flags (declaration order of `ReportedErrors`) and the
 /// ranges of lines that were not formatted.
-pub fn report_entries(report: &crate::FormatReport) -> (Vec<ReportEntry>, [bool; 7], Vec<(usize, usize)>) {
+pub fn report_entries(
+    report: &crate::FormatReport,
+) -> (Vec<ReportEntry>, [bool; 7], Vec<(usize, usize)>) {
     let internal = report.internal.borrow();
     let mut files: Vec<_> = internal.0.keys().cloned().collect();
     files.sort_by_key(|f| f.to_string());
@@ -209,7 +214,13 @@ pub fn format_lines(
 ) -> (String, Vec<ReportEntry>, [bool; 7]) {
     let mut buf = text.to_owned();
     let report = crate::FormatReport::new();
-    crate::formatting::verif::run_format_lines(&mut buf, &FileName::Stdin, skipped_range, config, &report);
+    crate::formatting::verif::run_format_lines(
+        &mut buf,
+        &FileName::Stdin,
+        skipped_range,
+        config,
+        &report,
+    );
     let (entries, flags, _) = report_entries(&report);
     (buf, entries, flags)
 }
@@ -308,8 +319,9 @@ pub mod comments {
 
 /// Byte spans (relative to the start of `text`) of the syntactic elements the
 /// properties talk about, from rustc's own parse of `text`:
-/// (kind, lo, hi, parent_kind; for a statement parent_kind is let / expr / mac) with kind one of item, assoc_item, foreign_item,
-/// stmt, field, variant, arm, param, arg (call / method-call argument), expr_field
+/// (kind, lo, hi, parent_kind; for a statement parent_kind is let / expr / mac) with kind
+/// one of item, assoc_item, foreign_item, stmt, field, variant, arm, param, arg (call /
+/// method-call argument), expr_field
 /// (struct-literal field). `lo` includes the element's outer attributes.
 pub fn ast_nodes(text: &str, config: &Config) -> Option<Vec<(String, usize, usize, String)>> {
     use rustc_ast::visit::{self, Visitor};
@@ -457,7 +469,11 @@ pub mod imports {
         with_crate(text, config, |krate, context| {
             let items: Vec<&rustc_ast::ast::Item> = krate.items.iter().map(|i| &**i).collect();
             if items.is_empty() {
-                return Pipeline { input: vec![], regrouped: vec![], groups: vec![] };
+                return Pipeline {
+                    input: vec![],
+                    regrouped: vec![],
+                    groups: vec![],
+                };
             }
             // the span of the run, as walk_reorderable_or_regroupable_items computes it
             let span = crate::utils::mk_sp(
@@ -466,11 +482,17 @@ pub mod imports {
             );
             let trees: Vec<UseTree> = iv::trees_of_items(context, &items, span);
             let input = trees.iter().map(|t| iv::encode(context, t)).collect();
-            let regrouped_trees = normalize_use_trees_with_granularity(trees, config.imports_granularity());
-            let regrouped = regrouped_trees.iter().map(|t| iv::encode(context, t)).collect();
+            let regrouped_trees =
+                normalize_use_trees_with_granularity(trees, config.imports_granularity());
+            let regrouped = regrouped_trees
+                .iter()
+                .map(|t| iv::encode(context, t))
+                .collect();
             let mut groups = match config.group_imports() {
                 GroupImportsTactic::Preserve | GroupImportsTactic::One => vec![regrouped_trees],
-                GroupImportsTactic::StdExternalCrate => crate::reorder::verif_imports::group(regrouped_trees),
+                GroupImportsTactic::StdExternalCrate => {
+                    crate::reorder::verif_imports::group(regrouped_trees)
+                }
             };
             if config.reorder_imports() {
                 groups.iter_mut().for_each(|g| g.sort());
@@ -480,7 +502,11 @@ pub mod imports {
                 .filter(|g| !g.is_empty())
                 .map(|g| g.iter().map(|t| iv::encode(context, t)).collect())
                 .collect();
-            Pipeline { input, regrouped, groups }
+            Pipeline {
+                input,
+                regrouped,
+                groups,
+            }
         })
     }
 
@@ -514,7 +540,11 @@ pub mod whitespace {
     }
 
     /// `push_vertical_spaces(newline_count)` on a visitor whose buffer is `buffer`.
-    pub fn push_vertical_spaces(buffer: &str, newline_count: usize, config: &Config) -> Option<String> {
+    pub fn push_vertical_spaces(
+        buffer: &str,
+        newline_count: usize,
+        config: &Config,
+    ) -> Option<String> {
         with_crate("", config, |_krate, context| {
             let mut v = crate::visitor::FmtVisitor::from_context(context);
             v.buffer = buffer.to_owned();
@@ -524,7 +554,12 @@ pub mod whitespace {
     }
 
     /// `Indent::new(block, alignment).to_string(config)` (with_newline: `to_string_with_newline`).
-    pub fn indent_to_string(block: usize, alignment: usize, with_newline: bool, config: &Config) -> String {
+    pub fn indent_to_string(
+        block: usize,
+        alignment: usize,
+        with_newline: bool,
+        config: &Config,
+    ) -> String {
         let i = crate::shape::Indent::new(block, alignment);
         if with_newline {
             i.to_string_with_newline(config).into_owned()
@@ -550,8 +585,8 @@ pub mod skip {
     use rustc_ast::ast;
     use rustc_ast_pretty::pprust;
 
-    /// A meta item as (kind, path, args): kind "w" word, "l" list, "nv" name-value; an argument of a
-    /// list that is a literal is ("lit", "", []).
+    /// A meta item as (kind, path, args): kind "w" word, "l" list, "nv" name-value; an
+    /// argument of a list that is a literal is ("lit", "", []).
     #[derive(Debug, Clone)]
     pub struct Meta(pub String, pub String, pub Vec<Meta>);
 
